@@ -47,8 +47,15 @@ def _format(obj, format_spec=""):
     with NoTracing():
         symint = isinstance(obj, _bl.SymbolicInt) and not isinstance(obj, _bl.SymbolicBool)
         empty = (not isinstance(format_spec, _bl.AnySymbolicStr)) and format_spec == ""
+        # stock CrossHair formats a deep-realised COPY of the object, untraced: side effects of __str__ (yamlpath
+        # caches the stringified path in the object) are lost.  For yamlpath's own classes with the default
+        # __format__, format(obj, "") is str(obj) by the language definition: call it, traced, on the original.
+        own = (empty and type(obj).__module__.startswith("yamlpath")
+               and type(obj).__format__ is object.__format__)
     if symint and empty:
         return obj.__str__()
+    if own:
+        return str(obj)
     return _ch_format(obj, format_spec)
 
 
